@@ -556,6 +556,57 @@ def dtype_value_lattice(ctx):
     return bad, {"dtype_calls": n_calls, "dtype_elements": n_elems, "dtype_distribution": dist}
 
 
+def function_form_lattice(ctx):
+    """the NumPy FUNCTION forms with the operands in EITHER order and of either flavor - numpy.isclose / allclose / equal / not_equal / add /
+    subtract / matmul / multiply(k, v) given (object, array), (array, object), (generic array, momentum array), (momentum array, generic
+    array): element i equals the object-backend result for element i (NumPy dispatches on the subclass / on whichever operand is an array,
+    which need not be the first)  -> (bad, stats)"""
+    r = C.rng(ctx.seed, "function-forms")
+    bad, n = [], 0
+    for dim in (2, 3, 4):
+        for sig in (C.SIGS[dim] if ctx.tier == "thorough" else r.sample(C.SIGS[dim], 2)):
+            sig2 = r.choice(C.SIGS[dim])
+            rows = [C.cart_to_stored(sig, p) for p in C.strata_points(dim, r, n_random=2)[:4]]
+            rows2 = [C.cart_to_stored(sig2, p) for p in C.strata_points(dim, r, n_random=2)[:4]]
+            rows2[1] = [float(x) for x in C.stored(getattr(C.obj_vec("g", sig, rows[1]), "to_" + "".join(C.signames(sig2)))())]     # one equal element
+            for fa, fb in (("g", "m"), ("m", "g"), ("g", "g")):
+                A, B = C.np_array(fa, sig, rows), C.np_array(fb, sig2, rows2)
+                oa, ob = [C.obj_vec(fa, sig, x) for x in rows], [C.obj_vec(fb, sig2, x) for x in rows2]
+                forms = [("numpy.isclose", lambda u, v: numpy.isclose(u, v), lambda u, v: u.isclose(v)), ("numpy.equal", lambda u, v: numpy.equal(u, v), lambda u, v: u.equal(v)),
+                         ("numpy.not_equal", lambda u, v: numpy.not_equal(u, v), lambda u, v: u.not_equal(v)), ("numpy.add", lambda u, v: numpy.add(u, v), lambda u, v: u.add(v)),
+                         ("numpy.subtract", lambda u, v: numpy.subtract(u, v), lambda u, v: u.subtract(v)), ("numpy.matmul", lambda u, v: numpy.matmul(u, v), lambda u, v: u.dot(v)),
+                         ("numpy.isclose(rtol=0.5)", lambda u, v: numpy.isclose(u, v, rtol=0.5, atol=0.25), lambda u, v: u.isclose(v, rtol=0.5, atol=0.25))]
+                pairings = [("array, array", A, B, oa, ob), ("array, object", A, ob[1], oa, [ob[1]] * 4), ("object, array", oa[1], B, [oa[1]] * 4, ob)]
+                for fname, ff, fm in forms:
+                    for pname, u, v, ou, ov in pairings:
+                        n += 1
+                        key = f"function-form:{fname}:{pname}:{fa}{fb}"
+                        try:
+                            want = [elem_value(fm(x, y)) for x, y in zip(ou, ov)]
+                        except Exception:  # noqa: BLE001
+                            continue
+                        try:
+                            got = flatten_result(ff(u, v), 4)
+                        except Exception as e:  # noqa: BLE001
+                            bad.append((f"{fname}({pname}) {fa}:{sig} / {fb}:{sig2}", f"raises {type(e).__name__}: {str(e)[:80]} while the method form works", key))
+                            continue
+                        for i, (g, w) in enumerate(zip(got, want)):
+                            if not compare_elem(g, w, 10.0):
+                                bad.append((f"{fname}({pname}) {fa}:{sig} / {fb}:{sig2} element {i}", f"function form {g}, method form on the elements {w}", key))
+                                break
+                # allclose in every pairing
+                for pname, u, v, ou, ov in [("array, array", A, B, oa, ob), ("array, object", A, ob[1], oa, [ob[1]] * 4), ("object, array", oa[1], B, [oa[1]] * 4, ob)]:
+                    n += 1
+                    try:
+                        want = all(bool(x.isclose(y)) for x, y in zip(ou, ov))
+                        got = bool(numpy.allclose(u, v))
+                        if got != want:
+                            bad.append((f"numpy.allclose({pname}) {fa}:{sig} / {fb}:{sig2}", f"{got}, all(isclose) of the elements is {want}", f"function-form:numpy.allclose:{pname}:{fa}{fb}"))
+                    except Exception as e:  # noqa: BLE001
+                        bad.append((f"numpy.allclose({pname}) {fa}:{sig} / {fb}:{sig2}", f"raises {type(e).__name__}: {str(e)[:80]}", f"function-form:numpy.allclose:{pname}:{fa}{fb}"))
+    return bad, {"function_form_calls": n}
+
+
 # ------------------------------------------------------------------------------------------------ C05/C11: operators and ufuncs = methods (values)
 def _canon(res, n):
     """per-element canonical values of a result (array of vectors / numbers, or single vector / number)"""
